@@ -110,6 +110,8 @@ class CallMixin:
     def call_user(self, qualname, recv, args, kwargs, st, node=None):
         con = self.contracts.get(qualname)
         fnode = self.src.func(qualname)
+        if fnode is not None and any(getattr(d, 'id', None) == 'staticmethod' for d in fnode.decorator_list):
+            recv = None
         if con is not None and not con.inline:
             if fnode is None:
                 raise Inapplicable('function %s not found' % qualname)
@@ -444,6 +446,14 @@ class CallMixin:
     def bi_hash(self, args, kwargs, st, node):
         self.assumptions.add('opaque values are hashable (hash() neither raises nor has side effects)')
         return [(SInt(self.fresh(st, 'hash', z3.IntSort())), st)]
+
+    def bi_next(self, args, kwargs, st, node):
+        h = self.externals.get('next')
+        if h:
+            r = h(self, args, kwargs, st, node)
+            if r is not None:
+                return r
+        raise Unsupported('next(%r)' % (args[0],))
 
     def bi_print(self, args, kwargs, st, node):
         return [(SNone(), st)]
